@@ -40,6 +40,13 @@ def gen_cases(rng, tier):
             x0 = rng.randint(0, w - 1); ln = rng.randint(1, w - x0)
             extra = [rng.randint(0, 255)] if kind == 1 else []
         cases.append(px_case(kind, mode, hq, rng.random() < 0.5, rand_color(rng), has_mask, x0, ln, row, extra))
+    # public fill_rect with a clip mask whose size differs from the pixmap's: documented as skipped
+    for i in range(300 if tier == "quick" else 3000):
+        w = rng.randint(1, 20)
+        mw, mh = rng.choice([(w, 1), (w + 1, 1), (w, 2), (max(1, w - 1), 1), (w + 3, 4), (w, 3)])
+        row = [rand_premul(rng) + (255,) for _ in range(w)]
+        x0 = rng.randint(0, w - 1); ln = rng.randint(1, w - x0)
+        cases.append(px_case(5, rng.randrange(29), rng.random() < 0.3, False, rand_color(rng), True, x0, ln, row, [mw, mh]))
     return cases
 
 
@@ -52,6 +59,9 @@ def oracle(suite, args, out):
     o = decode_out(out, c["w"])
     if o is None:
         return "malformed output"
+    if c["kind"] == 5 and (c["extra"][0], c["extra"][1]) != (c["w"], 1):
+        if any(tuple(o[x]) != tuple(c["row"][x][:4]) for x in range(c["w"])):
+            return "a draw with a %dx%d mask on a %dx1 pixmap (documented as skipped) changed pixels" % (c["extra"][0], c["extra"][1], c["w"])
     for x in range(c["w"]):
         if not (c["x0"] <= x < c["x0"] + c["len"]) and tuple(o[x]) != tuple(c["row"][x][:4]):
             return "pixel %d outside the span [%d,%d) changed from %r to %r (%s, kind %d)" % (
